@@ -8,3 +8,6 @@ import Dm.Props.C07
 #print axioms Dm.Props.C07.wrapped_pointer_field_prints_held_pointer
 #print axioms Dm.Props.C07.wrapped_field_deref_iff_pointer
 #print axioms Dm.Props.C07.default_placeholder_is_the_derived_trait
+#print axioms Dm.Props.C07.source_default_placeholders_are_the_model
+#print axioms Dm.Props.C07.source_default_placeholders_denote_their_trait
+#print axioms Dm.Props.C07.source_attribute_names_distinct
